@@ -179,7 +179,12 @@ def apply_fault(case, fault, pick):
         return _tokens(units) + ["surplus"]
     if fault in ("unknown-long", "unknown-short"):
         i = pick % (head_end + 1)
-        units.insert(i, {"kind": "opt", "tokens": ["--nope" if fault == "unknown-long" else "-Z"]})
+        unknown = "--nope" if fault == "unknown-long" else "-Z"
+        known = [o["long"] for o in gen_args.fmt_options(fmt)]
+        if fault == "unknown-long" and known and pick % 3:
+            # three or four dashes in front of a KNOWN name: the option '-name' / '--name' (with dashes in it) is unknown
+            unknown = ("---" if pick % 3 == 1 else "----") + known[pick % len(known)]
+        units.insert(i, {"kind": "opt", "tokens": [unknown]})
         return _tokens(units)
     if fault == "unknown-in-group":
         cands = [i for i, u in enumerate(units) if u.get("form") in ("flag-short", "group")]
